@@ -247,7 +247,8 @@ def project(raw_events, scenario, bound=None):
                 o["et"] = ev.get("errType", "")
                 if ev.get("slow"):
                     o["slow"] = True
-                    slow_cid[ev["slow"]] = ev["seq"]
+                    if not ev.get("abort"):     # an upload that breaks off never completes its body
+                        slow_cid[ev["slow"]] = ev["seq"]
             elif kind == "InitErrCall":
                 o["body"] = body_label(ev.get("body"))
                 o["big"] = ev.get("size", 0) > MAX_PAYLOAD
